@@ -94,6 +94,22 @@ func (t *Dense) SafeT(axes ...int) (retVal *Dense, err error) {
 
 	retVal.e = t.e
 	retVal.oe = t.oe
+	if !noop && !t.old.IsZero() && t.len() == t.Size() && t.o.IsRowMajor() {
+		// the source is itself lazily transposed. Bring the copy into the source's
+		// logical order first: a transposition pending on a tensor is described
+		// relative to plain contiguous storage (the in-place Transpose() relies on it),
+		// not relative to another pending transposition.
+		t.AP.CloneTo(&retVal.AP)
+		t.old.CloneTo(&retVal.old)
+		retVal.transposeWith = append(BorrowInts(len(t.transposeWith))[:0], t.transposeWith...)
+		if err = retVal.Transpose(); err != nil {
+			return nil, err
+		}
+		if err = retVal.T(axes...); err != nil {
+			return nil, err
+		}
+		return retVal, nil
+	}
 	retVal.AP = transform
 	if !noop {
 		t.AP.CloneTo(&retVal.old)
